@@ -20,10 +20,14 @@ members interleaved anywhere, each `"key" : value` with ANY JSON string as key o
 names and ANY JSON value nested at most 64 deep (an inductive grammar `JT`: strings with any escapes,
 numbers, `true`/`false`/`null`, arrays and objects with any whitespace) — skipped exactly, leaving the
 seven values untouched.
-Completeness for the rest of JSON (other spellings of the seven VALUES: escapes such as `\/` or
-`\u0041` inside content and tag strings, upper-case hex; duplicate members) is established by the
-correspondence check against Python's `json` over the concrete-syntax-tree generator and is not
-claimed as a theorem.
+EVERY JSON SPELLING (`complete_any_json_spelling`): the same for the tags array and the content in
+ANY JSON spelling — whitespace inside the arrays wherever JSON allows it, every string written with
+any legal escapes (raw UTF-8, `\" \\ \/ \b \f \n \r \t`, `\uXXXX` in either hex case for every
+non-surrogate code point below 0x10000): the relations `TagsText` and `Spells` are the grammar, and
+`read_tags_array` (both passes) and `json_unescape` are proved to read every text of it back.
+What remains outside the theorems: upper-case hex in id/pubkey/sig, integer members written with a
+fraction or exponent, duplicate members, unknown values nested deeper than 64 — decided by the
+correspondence check against Python's `json` over the concrete-syntax-tree generator.
 -/
 namespace Pocket.C01
 open Pocket
@@ -82,7 +86,8 @@ theorem any_order_any_whitespace (e : EventRec) (hs : EventSized e)
     unfold encodeEvent
     rw [encodeEventWith_length _ _ _ _ _ _ _ hs.id hs.pk hs.sig, encodeTags_length]
   have hc : ECtx e tj ec buf.length :=
-    ⟨hs, hbid, hbpk, hbsig, hut, huc, htj, hec, by rw [hlen] at hbuf; unfold eventSize at hbuf; exact hbuf⟩
+    ⟨hs, hbid, hbpk, hbsig, tagsJson_text e.tags hut tj htj, jsonEscape_spells e.content ec huc hec,
+      by rw [hlen] at hbuf; unfold eventSize at hbuf; exact hbuf⟩
   refine ⟨tj, ec, htj, hec, parseEvent_any_order e tj ec buf hc ms hws hnd hall lead hlead R, ?_⟩
   rw [List.take_left' rfl]
   exact eventDecode_encode e hs
@@ -107,10 +112,57 @@ theorem any_order_any_whitespace_unknown_members (e : EventRec) (hs : EventSized
     unfold encodeEvent
     rw [encodeEventWith_length _ _ _ _ _ _ _ hs.id hs.pk hs.sig, encodeTags_length]
   have hc : ECtx e tj ec buf.length :=
-    ⟨hs, hbid, hbpk, hbsig, hut, huc, htj, hec, by rw [hlen] at hbuf; unfold eventSize at hbuf; exact hbuf⟩
+    ⟨hs, hbid, hbpk, hbsig, tagsJson_text e.tags hut tj htj, jsonEscape_spells e.content ec huc hec,
+      by rw [hlen] at hbuf; unfold eventSize at hbuf; exact hbuf⟩
   refine ⟨tj, ec, htj, hec, parseEvent_any_order_unknown e tj ec buf hc ms hws hnd hall lead hlead R, ?_⟩
   rw [List.take_left' rfl]
   exact eventDecode_encode e hs
+
+/-- **completeness for every JSON spelling**: the tags array in ANY JSON spelling (`TagsText`: whitespace
+after every `[`, before every `]`, round every comma; every string with any legal escapes — raw UTF-8,
+the short escapes incl. `\/`, `\uXXXX` with either hex case for every non-surrogate code point below
+0x10000) and the content likewise (`Spells`); id, pubkey and sig as lower-case hex, kind and created_at
+as decimal integers; the seven members in any order, any number of unknown members of any JSON shape
+(nested at most 64 deep) in between, any whitespace at every token boundary, after any leading
+whitespace and followed by anything: accepted into any sufficient buffer, consuming up to the closing
+brace, with exactly the bytes `from_parts` writes — every accessor returns the event's value -/
+theorem complete_any_json_spelling (e : EventRec) (hs : EventSized e)
+    (hbid : ∀ b ∈ e.id, b < 256) (hbpk : ∀ b ∈ e.pubkey, b < 256) (hbsig : ∀ b ∈ e.sig, b < 256)
+    (tj ec : Bytes) (htj : TagsText e.tags tj) (hec : Spells e.content ec) (buf : Bytes)
+    (hbuf : (encodeEvent e).length ≤ buf.length)
+    (ms : List ESpec) (hws : ∀ x ∈ ms, x.WsOk) (hnd : (ms.filterMap ESpec.mem?).Nodup)
+    (hall : ∀ m : EMem, m ∈ ms.filterMap ESpec.mem?) (lead : Bytes) (hlead : AllWs lead) (R : Bytes) :
+    parseEvent (lead ++ 123 :: evTextU e tj ec ms R) buf =
+      .ok ((lead ++ 123 :: evTextU e tj ec ms R).length - R.length, (encodeEvent e).length,
+        encodeEvent e ++ buf.drop (encodeEvent e).length) ∧
+    eventDecode ((encodeEvent e ++ buf.drop (encodeEvent e).length).take (encodeEvent e).length) = .ok e := by
+  have hlen : (encodeEvent e).length = eventSize (tagsSize e.tags) e.content.length := by
+    unfold encodeEvent
+    rw [encodeEventWith_length _ _ _ _ _ _ _ hs.id hs.pk hs.sig, encodeTags_length]
+  have hc : ECtx e tj ec buf.length :=
+    ⟨hs, hbid, hbpk, hbsig, htj, hec, by rw [hlen] at hbuf; unfold eventSize at hbuf; exact hbuf⟩
+  refine ⟨parseEvent_any_order_unknown e tj ec buf hc ms hws hnd hall lead hlead R, ?_⟩
+  rw [List.take_left' rfl]
+  exact eventDecode_encode e hs
+
+/-- the spelling grammar is inhabited by non-canonical spellings: the tags `[["e","é\n"],[]]` written
+`[ [ "\u0065" , "\u00E9\n" ] , [ ] ]` and the content `a/"` written `\u0061\/\"` -/
+example : TagsText [[utf8Of [101], utf8Of [233, 10]], []]
+      (91 :: ([32] ++ 91 :: ([32] ++ ((34 :: ([92, 117, 48, 48, 54, 53] ++ 34 ::
+        ([32] ++ 44 :: ([32] ++ 34 :: (([92, 117, 48, 48, 69, 57] ++ ([92, 110] ++ [])) ++ 34 :: ([32] ++ [93])))))) ++
+        ([32] ++ 44 :: ([32] ++ 91 :: ([32] ++ ([93] ++ ([32] ++ [93]))))))))) ∧
+    Spells (utf8Of [97, 47, 34]) ([92, 117, 48, 48, 54, 49] ++ ([92, 47] ++ ([92, 34] ++ []))) := by
+  have ws : AllWs [32] := by intro b hb; simp at hb; subst hb; decide
+  have wn : AllWs [] := by intro b hb; cases hb
+  refine ⟨.tags _ _ [32] [32] _ _ ws ws (.strs _ _ _ _ ?_ (.more _ _ [32] [32] _ _ ws ws ?_ (.close [32] ws)))
+    (.more [] [] [32] [32] [32] [93] _ ws ws ws .empty (.close [32] ws)), ?_⟩
+  · exact ⟨[101], by
+      have := SpelledL.cons 101 [] _ [] (Spelling.u 48 48 54 53 0 0 6 5 (by decide) (by decide) (by decide) (by decide) (by decide)) .nil
+      simpa using this, rfl⟩
+  · exact ⟨[233, 10], .cons 233 [10] _ _ (Spelling.u 48 48 69 57 0 0 14 9 (by decide) (by decide) (by decide) (by decide) (by decide))
+      (.cons 10 [] _ [] .n .nil), rfl⟩
+  · exact ⟨[97, 47, 34], .cons 97 _ _ _ (Spelling.u 48 48 54 49 0 0 6 1 (by decide) (by decide) (by decide) (by decide) (by decide))
+      (.cons 47 _ _ _ .slash (.cons 34 [] _ [] .quote .nil)), rfl⟩
 
 /-- the grammar of skipped values is inhabited by nested, mixed values: `{"a":[1,true],"b":"x\"y"}` -/
 example : JT .val 2 (123 :: ([] ++ 34 :: ([97] ++ 34 :: ([] ++ 58 :: ([] ++
